@@ -125,63 +125,104 @@ Theorem C31_all_or_nothing : forall pf i2f fl_epoch ttext p q,
 Proof. exact all_or_nothing. Qed.
 Print Assumptions C31_all_or_nothing.
 
-(* GUARDED losslessness of a whole accepted upload: every stored column is the sound conversion
-   of the cells of one header column; a column is stored as converted unless its name starts
-   with '_'; no cell is cut unless a data record is longer than the header. *)
-Theorem C31_stored_lossless_guarded : forall pf i2f fl_epoch ttext p q b,
+(* FULL-STRENGTH losslessness of every accepted upload (after fcf78a3 and 53efdcd): no data
+   record is longer than the header, so rows are only padded with empty cells and never cut;
+   every stored column is the sound conversion of ALL the uploaded cells of one header column; no
+   stored column has a name the ingest pipeline would skip - it is stored exactly as converted. *)
+Theorem C31_stored_lossless : forall pf i2f fl_epoch ttext p q b,
   import_csv pf i2f fl_epoch ttext p q = inr b ->
   exists h0 rows,
     skipn (q_skip q) (q_records q) = h0 :: rows /\
     let header := header_of h0 in
-    let fitted := map (fit (length header)) rows in
+    let padded := map (pad (length header)) rows in
+    Forall (fun r => (length r <= length header)%nat) rows /\
     Forall (fun nc => exists i, fst nc = nth i header [] /\
-                                col_sound pf i2f (column_of fitted i) (snd nc) /\
-                                (starts_underscore (fst nc) = false -> stored_cells nc = col_cells (snd nc)))
-           (b_cols b) /\
-    (Forall (fun r => (length r <= length header)%nat) rows -> fitted = map (pad (length header)) rows).
+                                col_sound pf i2f (column_of padded i) (snd nc) /\
+                                starts_underscore (fst nc) = false /\
+                                stored_cells nc = col_cells (snd nc))
+           (b_cols b).
 Proof. exact import_lossless. Qed.
-Print Assumptions C31_stored_lossless_guarded.
+Print Assumptions C31_stored_lossless.
 
-(* REFUTED without the guards.  (1) a column whose name starts with '_' is accepted, counted in
-   the response, and not stored. *)
+(* Uploads that could not be stored losslessly are rejected as a whole (and, by
+   C31_all_or_nothing, write nothing): a data record with more fields than the header ... *)
+Theorem C31_long_row_rejected : forall pf i2f fl_epoch ttext p q h0 rows ti,
+  N.eqb (q_delim_runes q) 1 = true -> skipn (q_skip q) (q_records q) = h0 :: rows ->
+  validate_header (header_of h0) (q_time_column q) = inr ti ->
+  existsb (fun r => (length (header_of h0) <? length r)%nat) rows = true ->
+  import_csv pf i2f fl_epoch ttext p q = inl RLongRow.
+Proof. exact import_rejects_long_row. Qed.
+Print Assumptions C31_long_row_rejected.
+
+(* ... and a header with a non-time column whose name starts with '_' (CSV and Parquet share
+   validateImportHeader). *)
+Theorem C31_underscore_column_rejected : forall h tc x,
+  In x h -> starts_underscore x = true -> x <> tc -> exists e, validate_header h tc = inl e.
+Proof. exact (header_rejects_underscore no_oracle no_oracle no_oracle). Qed.
+Print Assumptions C31_underscore_column_rejected.
+
+(* the former witnesses: both uploads are now rejected and write nothing *)
 Definition underscore_witness : request :=
   {| q_time_column := name_time; q_fmt := Auto; q_skip := 0; q_delim_runes := 1;
      q_records := [ [name_time; [95; 104]%N; [118]%N];                      (* time,_h,v *)
                     [[49; 55; 48; 48; 48; 48; 48; 48; 48; 48]%N; [53]%N; [54]%N] ];   (* 1700000000,5,6 *)
      q_csv_err := false |}.
-
-Theorem C31_underscore_column_refuted :
-  exists bt, import_csv no_oracle (fun n => n) no_oracle no_oracle default_tparams underscore_witness = inr bt /\
-    b_cols bt = [ ([95; 104]%N, IntCol [Some 5]); ([118]%N, IntCol [Some 6]) ] /\
-    stored_rows bt = [ (1700000000000000, [VAbsent; VInt 6]) ].
-Proof. eexists. vm_compute. repeat split. Qed.
-Print Assumptions C31_underscore_column_refuted.
-
-(* (2) the cells of a data record beyond the header are dropped, the upload is accepted. *)
 Definition long_row_witness : request :=
   {| q_time_column := name_time; q_fmt := Auto; q_skip := 0; q_delim_runes := 1;
      q_records := [ [name_time; [118]%N];
                     [[49; 55; 48; 48; 48; 48; 48; 48; 48; 48]%N; [53]%N; [69; 88]%N] ];   (* 1700000000,5,EX *)
      q_csv_err := false |}.
 
-Theorem C31_long_row_refuted :
-  exists bt, import_csv no_oracle (fun n => n) no_oracle no_oracle default_tparams long_row_witness = inr bt /\
-    stored_rows bt = [ (1700000000000000, [VInt 5]) ] /\
-    existsb (fun r => (2 <? length r)%nat) (tl (q_records long_row_witness)) = true.
-Proof. eexists. vm_compute. repeat split. Qed.
-Print Assumptions C31_long_row_refuted.
+Theorem C31_former_witnesses_rejected :
+  import_csv no_oracle (fun n => n) no_oracle no_oracle default_tparams underscore_witness = inl RUnderscore /\
+  import_writes no_oracle (fun n => n) no_oracle no_oracle default_tparams underscore_witness = [] /\
+  import_csv no_oracle (fun n => n) no_oracle no_oracle default_tparams long_row_witness = inl RLongRow /\
+  import_writes no_oracle (fun n => n) no_oracle no_oracle default_tparams long_row_witness = [].
+Proof. vm_compute. repeat split. Qed.
+Print Assumptions C31_former_witnesses_rejected.
 
-(* Parquet side: integer columns are widened without loss - except uint64 values above
-   MaxInt64, which `int64(v)` wraps to negative numbers. *)
-Theorem C31_parquet_int_lossless : forall t v,
-  itype_range t v -> (t = U64 -> v < two63) -> arrow_int_to_int64 t v = v.
-Proof. exact parquet_int_lossless. Qed.
-Print Assumptions C31_parquet_int_lossless.
+(* Parquet side (after 2599b0c).  Integer columns other than uint64 are widened without loss ... *)
+Theorem C31_parquet_int_exact : forall p t v,
+  t <> U64 -> pq_cells p (PInt t v) = Some (map (fun o => match o with Some z => VInt z | None => VNull end) v).
+Proof. exact pq_int_exact. Qed.
+Print Assumptions C31_parquet_int_exact.
 
-Theorem C31_parquet_uint64_refuted :
-  itype_range U64 9223372036854775813 /\ arrow_int_to_int64 U64 9223372036854775813 = -9223372036854775803.
-Proof. split; [cbn; unfold two64; lia|vm_compute; reflexivity]. Qed.
-Print Assumptions C31_parquet_uint64_refuted.
+(* ... a uint64 column is stored exactly, or the file is rejected - exactly when a non-null value is
+   above MaxInt64 (it used to be stored as a negative number) ... *)
+Theorem C31_parquet_uint64_checked : forall p v,
+  (forall z, In (Some z) v -> 0 <= z) ->
+  match pq_cells p (PInt U64 v) with
+  | Some cells => cells = map (fun o => match o with Some z => VInt z | None => VNull end) v /\
+                  (forall z, In (Some z) v -> z < two63)
+  | None => exists z, In (Some z) v /\ two63 <= z
+  end.
+Proof. exact pq_uint64_checked. Qed.
+Print Assumptions C31_parquet_uint64_checked.
+
+(* ... and so is a non-time TIMESTAMP column: exact by unit, or rejected when the microseconds of a
+   non-null value do not fit int64. *)
+Theorem C31_parquet_ts_column_checked : forall p u v,
+  0 < mul_s p -> 0 < mul_ms p ->
+  match pq_cells p (PTs u v) with
+  | Some cells =>
+      Forall2 (fun o c => match o with
+                          | Some z => c = VInt (match u with USecond => z * mul_s p | UMilli => z * mul_ms p
+                                                          | UMicro => z | UNano => Z.quot z (div_ns p) end)
+                          | None => c = VNull
+                          end) v cells
+  | None => exists z, In (Some z) v /\
+                      ((u = USecond /\ ~ in_int64 (z * mul_s p)) \/ (u = UMilli /\ ~ in_int64 (z * mul_ms p)))
+  end.
+Proof. exact pq_ts_checked. Qed.
+Print Assumptions C31_parquet_ts_column_checked.
+
+(* the former Parquet witnesses are rejected *)
+Theorem C31_former_parquet_witnesses_rejected :
+  pq_cells default_tparams (PInt U64 [Some 9223372036854775813]) = None /\
+  pq_cells default_tparams (PTs USecond [Some 9223372036855]) = None /\
+  pq_cells default_tparams (PInt U64 [Some 9223372036854775807; None]) = Some [VInt 9223372036854775807; VNull].
+Proof. vm_compute. repeat split. Qed.
+Print Assumptions C31_former_parquet_witnesses_rejected.
 
 (* The TIME column of a Parquet file (Arrow TIMESTAMP, after b90d6d7): exact by unit, or rejected -
    exactly when the microseconds do not fit int64. *)
@@ -198,24 +239,6 @@ Theorem C31_arrow_ts_checked : forall p v u,
   end.
 Proof. exact arrow_ts_checked_spec. Qed.
 Print Assumptions C31_arrow_ts_checked.
-
-(* A NON-time TIMESTAMP column still goes through the unchecked arrowTimestampToMicros: exact under
-   the no-overflow guard ... *)
-Theorem C31_arrow_ts_column_exact : forall p v u,
-  match u with
-  | USecond => in_int64 (v * mul_s p) -> arrow_ts_to_micros p v u = v * mul_s p
-  | UMilli => in_int64 (v * mul_ms p) -> arrow_ts_to_micros p v u = v * mul_ms p
-  | UMicro => arrow_ts_to_micros p v u = v
-  | UNano => arrow_ts_to_micros p v u = Z.quot v (div_ns p)
-  end.
-Proof. exact arrow_ts_exact. Qed.
-Print Assumptions C31_arrow_ts_column_exact.
-
-(* ... and wrapping without it (not covered by b90d6d7). *)
-Theorem C31_arrow_ts_column_overflow_refuted :
-  in_int64 9223372036855 /\ arrow_ts_to_micros default_tparams 9223372036855 USecond = -9223372036854551616.
-Proof. split; [unfold in_int64, two63; lia|vm_compute; reflexivity]. Qed.
-Print Assumptions C31_arrow_ts_column_overflow_refuted.
 
 (* ---- non-vacuity --------------------------------------------------------------------- *)
 
